@@ -197,4 +197,30 @@ theorem minMaxCore_fo_literal (isMax : Bool) (a : Atom) (rest : Seq)
       rw [hext] at this
       simpa using this
 
+/-! ### the hypothesis holds whenever the promotion is exact -/
+
+/-- items whose promotion to xs:double is exact: doubles, integers up to 2^53 in magnitude -/
+def exactlyPromotable : Atom → Bool
+  | .int n => decide (n.natAbs ≤ 2 ^ 53)
+  | .dbl _ => true
+  | _ => false
+
+theorem toDouble_val_of_exact (a : Atom) (h : exactlyPromotable a = true) : (toDouble a).val = exact a := by
+  cases a with
+  | int n =>
+    have h' : n.natAbs ≤ 2 ^ 53 := by simpa [exactlyPromotable] using h
+    simp [toDouble, D.ofInt, h', D.val, exact]
+  | dbl d => rfl
+  | _ => simp [exactlyPromotable] at h
+
+theorem promotionMonotoneOn_of_exact (s : Seq) (h : s.all exactlyPromotable = true) :
+    promotionMonotoneOn s = true := by
+  unfold promotionMonotoneOn
+  rw [List.all_eq_true]; intro x hx
+  rw [List.all_eq_true]; intro y hy
+  have ex := toDouble_val_of_exact x (List.all_eq_true.mp h x hx)
+  have ey := toDouble_val_of_exact y (List.all_eq_true.mp h y hy)
+  simp only [D.lt, ex, ey]
+  cases XV.lt (exact x) (exact y) <;> rfl
+
 end EPV.Seq
